@@ -20,8 +20,17 @@ def sameForMatching (k1 k2 : Key) : Bool :=
       !(decide (65 ≤ k1.keycode) && decide (k1.keycode ≤ 90))))
 
 theorem keyString_congr (u : Uni) (k1 k2 : Key) (h1 : k1.keycode = k2.keycode) (h2 : k1.mods = k2.mods)
-    (h3 : k1.event = k2.event) : keyString u k1 = keyString u k2 := by
-  unfold keyString; rw [h1, h2, h3]
+    (h3 : k1.event = k2.event) (h4 : k1.text = k2.text ∨ k1.mods = 0) : keyString u k1 = keyString u k2 := by
+  unfold keyString
+  rcases h4 with h4 | h4
+  · rw [h1, h2, h3, h4]
+  · have h0 : k2.mods = 0 := by rw [← h2, h4]
+    have c1 : ¬(k1.mods &&& ModCapsLock ≠ 0 ∧ k1.text = strOfRune (u.toUpper k1.keycode)) := by
+      rw [h4]; simp
+    have c2 : ¬(k2.mods &&& ModCapsLock ≠ 0 ∧ k2.text = strOfRune (u.toUpper k2.keycode)) := by
+      rw [h0]; simp
+    simp only [c1, c2, if_false]
+    rw [h1, h2, h3]
 
 theorem sameForMatching_sound (k1 k2 : Key) (h : sameForMatching k1 k2 = true) :
     keyString asciiUni k1 = keyString asciiUni k2 ∧
@@ -29,7 +38,10 @@ theorem sameForMatching_sound (k1 k2 : Key) (h : sameForMatching k1 k2 = true) :
   simp only [sameForMatching, Bool.and_eq_true, Bool.or_eq_true, beq_iff_eq, Bool.not_eq_true',
     Bool.and_eq_false_imp, decide_eq_true_eq, decide_eq_false_iff_not] at h
   obtain ⟨⟨⟨⟨⟨hk, hs⟩, hb⟩, hm⟩, he⟩, ht⟩ := h
-  refine ⟨keyString_congr _ _ _ hk hm he, ?_⟩
+  refine ⟨keyString_congr _ _ _ hk hm he (by
+    rcases ht with ht | ⟨⟨⟨⟨⟨hm0, _⟩, _⟩, _⟩, _⟩, _⟩
+    · exact Or.inl ht
+    · exact Or.inr hm0), ?_⟩
   intro b m
   rcases ht with ht | ⟨⟨⟨⟨⟨hm0, ht1⟩, ht2⟩, hv⟩, hfffd⟩, hup⟩
   · have : k1 = k2 := by
